@@ -44,7 +44,7 @@ QUERIES_RULE = ("queries: every string over a small alphabet (lengths 0..3 quick
                 "functions and all NULL/zero/over-limit combinations")
 
 
-EXTRA_HARNESSES = {"C01": ["tok", "fmt", "misc"], "C02": ["tok", "fmt", "misc"], "C03": ["fmt", "misc"], "C04": ["fmt", "misc"], "C05": ["fmt", "misc"],
+EXTRA_HARNESSES = {"C01": ["tok", "fmt", "misc", "cons"], "C02": ["tok", "fmt", "misc", "cons"], "C03": ["fmt", "misc", "cons"], "C04": ["fmt", "misc", "cons"], "C05": ["fmt", "misc", "cons"],
                    "C06": ["misc"], "C08": ["fmt", "misc"]}
 
 
@@ -61,7 +61,7 @@ def _engine_check(prop, cfgs, level_text, assumptions, modes=(0,), queries=False
             jobs += mbconv_jobs(prop, tier, ["plain", "noslack"] if "noslack" in cfgs else ["plain"])
             hs.append("mbconv")
         for h in EXTRA_HARNESSES.get(prop, []):
-            jobs += harness_jobs(h, prop, tier, ["plain", "noslack"] if (h in ("fmt", "misc") and "noslack" in cfgs) else ["plain"], nw=1 if h == "misc" else 4)
+            jobs += harness_jobs(h, prop, tier, ["plain", "noslack"] if (h in ("fmt", "misc", "cons") and "noslack" in cfgs) else ["plain"], nw=1 if h in ("misc", "cons") else 4)
             hs.append(h)
         run_workers(jobs, res)
         res.evaluations = res.counters.get("calls", 0)
@@ -79,7 +79,7 @@ CHECKS["C01"] = _engine_check("C01", ["plain", "noslack"], "fence + arena diff",
 CHECKS["C02"] = _engine_check("C02", ["plain"], "fence, exact-fit objects", FENCE_ASSUME, modes=(0, 1), queries=True)
 CHECKS["C03"] = _engine_check("C03", ["plain", "noslack"], "dirty-dest terminator scan", FENCE_ASSUME)
 CHECKS["C04"] = _engine_check("C04", ["plain", "noslack"], "before/after images on failure", FENCE_ASSUME, modes=(0, 1))
-CHECKS["C05"] = _engine_check("C05", ["plain"], "counting probe handlers + constraint classifier", FENCE_ASSUME, queries=True)
+CHECKS["C05"] = _engine_check("C05", ["plain"], "counting probe handlers + constraint classifier", FENCE_ASSUME, modes=(0, 1), queries=True)
 CHECKS["C06"] = _engine_check("C06", ["plain", "noslack"], "differential against reference models", FENCE_ASSUME)
 CHECKS["C07"] = _engine_check("C07", ["plain", "noslack"], "all relative placements inside one arena", FENCE_ASSUME, modes=(1,))
 CHECKS["C08"] = _engine_check("C08", ["plain", "noslack"], "slack scan after success", FENCE_ASSUME, modes=(0, 1))
